@@ -1161,6 +1161,62 @@ PROPS["C07"] = dict(
                "theorems about the repaired code (each is false of the pinned code on the finding's witness).",
 )
 
+# ---- line / column bookkeeping of the readers (Model.LineCol; docs/LINECOL-NOTES.md). Additive amendments of C11 and C09.
+LINECOL_TB = ("line/column bookkeeping is now modelled and proved equal to the specification: LineColIterator's counters as read by "
+              "IoRead::position / peek_position / byte_offset (with the peek slot) and SliceRead::position_of_index / position / "
+              "peek_position (Model.LineCol) are proved equal to lineCol (c11_iter_linecol, c11_reader_linecol, c11_slice_linecol, "
+              "c11_slice_positions, c09_positions_agree, c09_readers_in_step); what stays trusted there: memchr::memrchr / "
+              "memchr_iter().count() by their documented contract (naive scans, c11_memchr_contract), usize arithmetic as Nat "
+              "(counters bounded by the bytes read), and the correspondence run of ops lc3 / lcs")
+PROPS["C11"]["trusted_base"] = PROPS["C11"]["trusted_base"] + [LINECOL_TB]
+PROPS["C09"]["trusted_base"] = PROPS["C09"]["trusted_base"] + [LINECOL_TB]
+PROPS["C09"]["lean_targets"] = PROPS["C09"]["lean_targets"][:-1] + ["SJ.Props.C09LineCol"] + PROPS["C09"]["lean_targets"][-1:]
+LINECOL_RULE = (" Line/column bookkeeping (ops lc3, lcs; harness/src/linecol.rs): twelve schemas (Value, IgnoredAny, i32, (u8,u8), Vec<i32>, "
+                "map with u8 keys, Option<String>, u128, a struct, an enum, Vec<Value>, map of IgnoredAny), 60 (thorough 600) well-typed token "
+                "sequences each, rendered with newline-rich gaps between the tokens (\\n, \\r\\n, \\r, runs of newlines, blanks; multi-byte "
+                "characters and escaped \\n inside strings), each: intact, three times with one byte that no JSON continuation allows "
+                "planted in a gap (before / inside / after the newlines; the rest kept or cut), twice with a raw control character "
+                "(newline, CR, tab, 0x01) planted inside a string, four single-byte mutations / truncations; a crafted list putting a "
+                "newline (or \\r\\n, \\r, blank, nothing) where the reader has a byte peeked when a typed error is positioned (visitor "
+                "errors after a number, 128-bit overflow, numeric map keys, enum closing brace, tuple / struct / Option sites); "
+                "each text from str, slice and a randomly chunked reader. Streams: 300 (thorough 3000) concatenations of 1-4 values "
+                "with such gaps, intact / two planted bytes / cut, next() + byte_offset() histories of Value and IgnoredAny items from "
+                "the three sources. Non-trivial: an error in a text containing a newline or carriage return.")
+PROPS["C11"]["rule"] += LINECOL_RULE
+PROPS["C09"]["rule"] += LINECOL_RULE
+PROPS["C11"]["assumptions"] = PROPS["C11"]["assumptions"] + [
+    "memchr::memrchr returns the last index holding the needle (None if absent) and memchr_iter().count() the number of occurrences "
+    "(modelled as naive scans); LineColIterator's usize counters do not overflow (they are bounded by the number of bytes read)"]
+PROPS["C09"]["assumptions"] = PROPS["C09"]["assumptions"] + [
+    "memchr's documented contract for memrchr / memchr_iter (position_of_index), usize counters as Nat"]
+PROPS["C11"]["technique"] += ("; the crate's two position computations (LineColIterator, position_of_index) transcribed (Model.LineCol) and "
+                              "proved equal to the line/column specification; correspondence on errors planted at chosen bytes")
+PROPS["C09"]["technique"] += ("; 'same index' is turned into 'same line and column' by proving both position computations of the crate "
+                              "(incremental counters vs. memchr recomputation) equal to one specification")
+PROPS["C11"]["level_text"] += (" Line and column as the crate computes them (Model.LineCol, Proofs/LineCol.lean): c11_iter_linecol (after the "
+                               "first k bytes LineColIterator's (line, col) = lineCol bs k, byte_offset() = k, start_of_line = k - col), "
+                               "c11_reader_linecol (after any sequence of next / peek / discard calls on an IoRead: byte_offset() is the number "
+                               "of consumed bytes, peek_position = position, position = lineCol at byte_offset() when the peek slot is empty "
+                               "and at byte_offset() + 1 when it holds a byte - the iterator has already counted the peeked byte), "
+                               "c11_linecol_succ (one more byte: next line column 0 after a newline, else one more column; columns count "
+                               "bytes, \\r is a column), c11_slice_linecol (position_of_index(i) = lineCol bs i for i <= len, its start_of_line "
+                               "is the iterator's; it panics beyond len), c11_slice_positions (position / peek_position of a SliceRead never "
+                               "panic for index <= len; the min(len, index + 1) cap is needed exactly at index = len, where every Eof error "
+                               "is raised), c11_memchr_contract. Ops lc3 / lcs run the crate on errors planted at chosen bytes after newline "
+                               "patterns: model side through Model.LineCol per source, specification side lineCol at the first dead byte found "
+                               "by Spec.Pos.")
+PROPS["C09"]["level_text"] += (" Line and column (Props/C09LineCol.lean): c09_positions_agree (for one byte index k <= len, "
+                               "SliceRead::position_of_index(k) and an IoRead that has handed out k bytes - peek slot full or empty - report "
+                               "the same Position, lineCol bs k), c09_readers_in_step (the same next / peek / discard calls, discard only "
+                               "while a peeked byte is pending, on IoRead and SliceRead: same bytes returned, same byte_offset(), equal "
+                               "position() when nothing is pending, reader's position() = slice's peek_position() when a byte is), "
+                               "c09_untyped_line_col (Value / ignored: same code, same index, same line and column from slice and reader), "
+                               "c09_typed_line_col (typed targets: identical outcomes carry the same line and column; at the PeekCode / "
+                               "visitor-error sites where the reader's index is the slice's i + 1 the reader reports (line, column + 1), or "
+                               "(line + 1, 0) when byte i - the peeked one - is a newline: '256\\n' as u8 is 1:3 from a slice, 2:0 from a reader).")
+PROPS["C11"]["level_note"] += " Line/column bookkeeping modelled and proved (Model.LineCol); memchr by contract."
+PROPS["C09"]["level_note"] += " Line/column bookkeeping modelled and proved (Model.LineCol); memchr by contract."
+
 # properties not claimed yet (kept current as checks are added)
 NOT_APPLICABLE = [
     dict(property_id=f"C{i:02d}", reason="check under construction in this build phase; not yet claimed (see DESIGN.md §11 build order)")
